@@ -13,7 +13,8 @@ with how many clauses carry each list) and the container arms of every `remove` 
   for every fragment kind and for a map and a slice witness, the model's Modify (fragment in last position) and Set
   (Child, Nth, Wildcard, Union in last position; every kind in inner position) change the witness exactly when the
   fragment's arm lists that container type (`map[string]any` / `[]any`; a Filter reaches a map through the `default`
-  arm's reflection branch in modify.go and through `evalWithRoot` in set.go).
+  arm's reflection branch in modify.go and through `evalWithRoot` in set.go; since /repo d792e9c the Filter arm of modify.go
+  also has a `Keyed` case — former known finding C13-modify-filter-keyed-untouched).
 This is still a tie of shape, not of behaviour: what the arms DO is tied by the correspondence run. -/
 namespace OjgVerif.C13
 open OjgVerif OjgVerif.JPath OjgVerif.JPMut
@@ -48,7 +49,7 @@ def modifyContArmsModel : List (String × List String) := [
   ("Union/string", ["map[string]any", "Keyed", "gen.Object", "default"]),
   ("Union/int64", ["[]any", "Indexed", "gen.Array", "default"]),
   ("Slice", ["[]any", "Indexed", "gen.Array", "default"]),
-  ("*Filter", ["[]any", "Indexed", "gen.Array", "default"]),
+  ("*Filter", ["[]any", "Indexed", "gen.Array", "Keyed", "default"]),
   ("Descent", ["map[string]any", "[]any", "Keyed", "Indexed", "gen.Object", "gen.Array"])]
 
 def modifyValueListsModel : List (String × Nat) := [
